@@ -67,7 +67,24 @@ thread_local! {
     static TOTAL_POLLS: RefCell<u64> = const { RefCell::new(0) };
 }
 
+thread_local! {
+    /// inbox senders of the tasks of every module (current incarnation)
+    static INBOXES: RefCell<BTreeMap<usize, Vec<mpsc::UnboundedSender<()>>>> = const { RefCell::new(BTreeMap::new()) };
+}
+
+/// wakes task `to % ntasks` of module `m` (used by scripted handlers and processing elements)
+pub fn notify_task(m: usize, to: usize) {
+    INBOXES.with(|i| {
+        if let Some(v) = i.borrow().get(&m) {
+            if !v.is_empty() {
+                let _ = v[to % v.len()].send(());
+            }
+        }
+    });
+}
+
 pub fn reset_run() {
+    INBOXES.with(|i| i.borrow_mut().clear());
     POLLS.with(|p| *p.borrow_mut() = 0);
     TOTAL_POLLS.with(|p| *p.borrow_mut() = 0);
     MAX_POLLS.with(|p| p.borrow_mut().clear());
@@ -247,6 +264,9 @@ pub fn spawn_tasks(m: usize, inc: u16, prog: &Rc<NetProgram>) {
         txs.push(tx);
         rxs.push(rx);
     }
+    INBOXES.with(|i| {
+        i.borrow_mut().insert(m, txs.clone());
+    });
     for (ti, (spec, rx)) in specs.into_iter().zip(rxs.into_iter()).enumerate().take(6000) {
         let fut = Counted { m, inner: Box::pin(run_task(m, ti, inc, start, spec.clone(), rx, txs.clone(), SendToken(Token::task()))) };
         let handle = if spec.local { tokio::task::spawn_local(fut) } else { tokio::spawn(fut) };
@@ -285,13 +305,23 @@ struct TState {
 
 /// Expected completion instants of every step of every task of one module incarnation started at `start`.
 /// Only defined for scripts without Shutdown / Panic steps (those end the evaluation of the task).
-pub fn evaluate(tasks: &[TaskSpec], start: u64) -> Vec<Expect> {
+pub fn evaluate(tasks: &[TaskSpec], start: u64, ext: &[(u64, usize)]) -> Vec<Expect> {
     let n = tasks.len();
+    let mut ext: Vec<(u64, usize)> = ext.iter().copied().filter(|e| e.0 >= start).collect();
+    ext.sort_unstable();
+    let mut ext_i = 0usize;
     let mut st: Vec<TState> = (0..n).map(|_| TState { pc: 0, sub: 0, wake: Some(start), waiting_inbox: false, inbox: 0, done: false, iv_deadline: 0 }).collect();
     let mut out = Vec::new();
     let mut now = start;
     let mut guard = 0u64;
     loop {
+        // notifications from the module's handlers / elements that happen at this instant
+        while ext_i < ext.len() && ext[ext_i].0 <= now {
+            if n > 0 {
+                st[ext[ext_i].1 % n].inbox += 1;
+            }
+            ext_i += 1;
+        }
         // run everything that can progress at `now` until nothing moves any more
         let mut progressed = true;
         while progressed {
@@ -463,7 +493,12 @@ pub fn evaluate(tasks: &[TaskSpec], start: u64) -> Vec<Expect> {
             }
         }
         // advance to the next timer deadline
-        let next = st.iter().filter(|s| !s.done && !s.waiting_inbox).filter_map(|s| s.wake).filter(|w| *w > now).min();
+        let next_timer = st.iter().filter(|s| !s.done && !s.waiting_inbox).filter_map(|s| s.wake).filter(|w| *w > now).min();
+        let next_ext = ext.get(ext_i).map(|e| e.0);
+        let next = match (next_timer, next_ext) {
+            (Some(a), Some(b)) => Some(a.min(b)),
+            (a, b) => a.or(b),
+        };
         match next {
             Some(t) => now = t,
             None => break,
@@ -490,21 +525,58 @@ pub fn check_tasks(prog: &NetProgram, res: &NetResult, prop: &str, info: &mut Ru
         if spec.tasks.is_empty() || !finite(&spec.tasks) {
             continue;
         }
-        // this oracle is for modules that are never shut down and never panic
-        let disturbed = res.trace.iter().any(|r| r.m as usize == m && matches!(r.ev, Ev::ShutdownReq { .. } | Ev::PanicNow | Ev::Reset { .. }));
-        if disturbed {
+        // modules that panic are out of scope here; shut-down / restarted modules are judged per incarnation
+        if res.trace.iter().any(|r| r.m as usize == m && matches!(r.ev, Ev::PanicNow)) {
             continue;
         }
-        let expect = evaluate(&spec.tasks, 0);
-        let got: Vec<(usize, usize, u64, u32, u64)> = res
+        // incarnations: (inc, start, end) from the recorded resets / restarts
+        let mut incs: Vec<(u16, u64, u64)> = vec![(0, 0, u64::MAX)];
+        for r in res.trace.iter().filter(|r| r.m as usize == m) {
+            match &r.ev {
+                Ev::Reset { inc } => {
+                    if let Some(last) = incs.iter_mut().find(|i| i.0 == *inc) {
+                        last.2 = r.t;
+                    }
+                }
+                Ev::Start { stage: 0, inc } if *inc > 0 => incs.push((*inc, r.t, u64::MAX)),
+                _ => {}
+            }
+        }
+        let has_notify_pe = prog.gstack.iter().chain(spec.pes.iter()).any(|p| p.mode == 3);
+        let mut expect: Vec<(u16, u64, Expect)> = Vec::new();
+        for (inc, s0, end) in &incs {
+            let mut ext: Vec<(u64, usize)> = Vec::new();
+            let mut add = |t0: u64, site: usize, acts: &[crate::net::Act]| {
+                for (ai, a) in acts.iter().enumerate() {
+                    match a {
+                        crate::net::Act::NotifyTask { to } => ext.push((t0, *to as usize)),
+                        crate::net::Act::SelfMsg { delay_ns } if has_notify_pe => ext.push((t0 + delay_ns, crate::net::uid_of(m, site, ai, *inc) as usize)),
+                        _ => {}
+                    }
+                }
+            };
+            add(*s0, crate::net::START_SITE, &spec.start_acts);
+            for (bi, b) in spec.beats.iter().enumerate() {
+                add(s0 + b.at_ns, bi, &b.acts);
+            }
+            for e in evaluate(&spec.tasks, *s0, &ext) {
+                if e.time < *end {
+                    expect.push((*inc, *end, e));
+                }
+            }
+        }
+        let got: Vec<(usize, usize, u64, u32, u64, u16)> = res
             .trace
             .iter()
             .filter(|r| r.m as usize == m)
-            .filter_map(|r| if let Ev::Task { task, step, code, val, .. } = &r.ev { Some((*task as usize, *step as usize, r.t, *code, *val)) } else { None })
+            .filter_map(|r| if let Ev::Task { task, step, code, val, inc } = &r.ev { Some((*task as usize, *step as usize, r.t, *code, *val, *inc)) } else { None })
             .collect();
+        if incs.len() > 1 {
+            info.probe("timers_checked_across_restart");
+        }
         // instants with >= 2 resumptions
         let mut per_t: BTreeMap<u64, usize> = BTreeMap::new();
-        for e in &expect {
+        for (_, _, e) in &expect {
             *per_t.entry(e.time).or_insert(0) += 1;
         }
         if per_t.values().any(|c| *c >= 2) {
@@ -517,14 +589,14 @@ pub fn check_tasks(prog: &NetProgram, res: &NetResult, prop: &str, info: &mut Ru
         let polls = maxp.get(&m).copied().unwrap_or(0) as i64;
         // most channel receives one task performs within one instant (tokio's cooperative budget is 128 per poll)
         let mut recv_per: BTreeMap<(usize, u64), i64> = BTreeMap::new();
-        for e in &expect {
+        for (_, _, e) in &expect {
             if matches!(spec.tasks[e.task].steps.get(e.step), Some(AStep::Wait)) {
                 *recv_per.entry((e.task, e.time)).or_insert(0) += 1;
             }
         }
         let max_recv = recv_per.values().copied().max().unwrap_or(0);
-        for e in &expect {
-            let g = got.iter().find(|g| g.0 == e.task && g.1 == e.step && (e.val.is_none() || e.codes.contains(&g.3)));
+        for (inc, _end, e) in &expect {
+            let g = got.iter().find(|g| g.5 == *inc && g.0 == e.task && g.1 == e.step && (e.val.is_none() || e.codes.contains(&g.3)));
             match g {
                 None => {
                     if limit_stopped {
@@ -567,13 +639,14 @@ pub fn check_tasks(prog: &NetProgram, res: &NetResult, prop: &str, info: &mut Ru
                 }
             }
         }
-        // nothing beyond the script
-        if got.len() > expect.len() && !limit_stopped {
+        // nothing beyond the script (only decidable for modules that were never shut down)
+        if incs.len() == 1 && incs[0].2 == u64::MAX && got.len() > expect.len() && !limit_stopped {
             info.violate(Violation::new(prop, "extra-task-record", format!("module {} produced {} task records, the scripts have {}", module_path(prog, m), got.len(), expect.len())));
             return;
         }
         // joined finite tasks must not be reported as unfinished
-        if !limit_stopped && res.errors.iter().any(|(k, p)| k == "join-not-finished" && *p == module_path(prog, m)) {
+        let all_joined_finish = spec.tasks.iter().enumerate().filter(|(_, t)| t.join == 1).all(|(ti, t)| expect.iter().any(|(_, _, e)| e.task == ti && e.step == t.steps.len() && e.codes.contains(&T_FINISHED)));
+        if !limit_stopped && all_joined_finish && incs.len() == 1 && incs[0].2 == u64::MAX && res.errors.iter().any(|(k, p)| k == "join-not-finished" && *p == module_path(prog, m)) {
             let rule = if prop == "C06" { "never-resumed" } else { "timer-lost" };
             info.violate(Violation::new(prop, rule, format!("run() reports an unfinished joined task of module {} although every script is finite", module_path(prog, m)))
                 .fact("max_polls_in_module_event", polls).fact("max_recv_by_one_task_in_one_instant", max_recv));
@@ -638,6 +711,13 @@ pub fn gen_c05(rng: &mut Rng, tier: Tier) -> NetProgram {
                 spec.beats.push(crate::net::Beat { at_ns: k * 700 * MS + rng.below(3) * MS, acts: vec![crate::net::Act::SelfMsg { delay_ns: rng.below(10) * MS }] });
             }
         }
+        // restarts of the module: its tasks (and their timers) start over at the restart instant
+        if rng.chance(1, 4) {
+            let restart = *rng.pick(&[0i64, 1, 250_000_000, 3_000_000_000, 20_000_000_000]);
+            let at = *rng.pick(&[0u64, 3, MS, 10 * MS, 250 * MS, 1_000 * MS, 5_000 * MS, 12_000 * MS]) + rng.below(3);
+            spec.beats.push(crate::net::Beat { at_ns: at, acts: vec![crate::net::Act::Shutdown { restart, at: rng.chance(1, 2) }] });
+            spec.beats.sort_by_key(|b| b.at_ns);
+        }
         prog.modules.push(spec);
     }
     prog.order = (0..nmod as u32).collect();
@@ -651,7 +731,38 @@ pub fn gen_c06(rng: &mut Rng, tier: Tier) -> NetProgram {
     // most runs stay below the executor's per-turn budget; a few go far beyond it
     let big = rng.chance(1, 12);
     let cap = if tier == Tier::Thorough { 3000 } else { 300 };
-    match rng.below(3) {
+    match rng.below(4) {
+        3 => {
+            // the instant is enabled by a message: a handler (or a consuming processing element) wakes waiting tasks
+            let k = if big { 62 + rng.usize(cap) } else { 1 + rng.small(30) as usize };
+            for _ in 0..k {
+                let mut steps = vec![AStep::Wait];
+                if rng.chance(1, 3) {
+                    steps.push(AStep::Sleep { d: 2 * MS });
+                    steps.push(AStep::Wait);
+                }
+                spec.tasks.push(TaskSpec { local, join: rng.below(2) as u8, steps });
+            }
+            let via_pe = rng.chance(1, 2);
+            if via_pe {
+                if rng.chance(1, 2) {
+                    prog.gstack.push(crate::net::PeSpec { mode: 3, ..Default::default() });
+                } else {
+                    spec.pes.push(crate::net::PeSpec { mode: 3, ..Default::default() });
+                }
+            }
+            let nbeats = 1 + rng.small(3);
+            for b in 0..nbeats {
+                let mut acts = Vec::new();
+                for _ in 0..1 + rng.small(2 * k as u64) {
+                    acts.push(if via_pe { crate::net::Act::SelfMsg { delay_ns: *rng.pick(&[0u64, 0, MS, 7 * MS]) } } else { crate::net::Act::NotifyTask { to: rng.below(k as u64) as u16 } });
+                }
+                spec.beats.push(crate::net::Beat { at_ns: 100 * MS + b * 50 * MS, acts });
+            }
+            if rng.chance(1, 3) {
+                spec.start_acts = vec![crate::net::Act::NotifyTask { to: 0 }];
+            }
+        }
         0 => {
             // k tasks due at the same instant
             let k = if big { 62 + rng.usize(cap) } else { 1 + rng.small(40) as usize };
